@@ -6,5 +6,7 @@ CONSTANTS
   MaxSegs = 3
   MaxParts = 2
   SPPs = {1, 2}
+  Layouts = {"chrono", "dayfirst", "timefirst"}
+  CrossLayouts = FALSE
 INVARIANTS SplitInvisible SpecSane
 CHECK_DEADLOCK FALSE
